@@ -95,4 +95,11 @@ PROPS = {
              "fs in {mem, mount.FS with dir at/inside the mount point, mount.FS with dir above the mount point, os.FS (native Sub), an FS exposing only Open}; dir in {., a, a/b, ab}; one-step and nested Sub(Sub(..)); distinct = distinct term",
         level_text="TODO", level_note="TODO", assumptions=[],
     ),
+    "C08": dict(
+        imports="Base.Path KV.Types KV.FS KV.Handle KV.Run KV.Corr Compose.Helpers", check="C08_check", ctype="C08_case",
+        show="let '(cp, prep, o, _, _) := c in cstep cp (fold_left (fun s x => fst (step s x)) prep kv_init) o", n=dict(quick=2500, thorough=40000), chunk=150,
+        rule="for each of the 18 package helpers: every subset of the interfaces its dispatch inspects (generated wrapper types, 36 distinct method sets) over mem.FS and over os.FS, "
+             "start states and arguments from the C01 alphabet; then a failure injected into every primitive call (FS method or file method) the chosen path makes; distinct = distinct (helper, subset, state, argument[, fault])",
+        level_text="TODO", level_note="TODO", assumptions=[],
+    ),
 }
